@@ -34,6 +34,10 @@ pub fn run_exec(cmd: &str, input: &str, env: &BTreeMap<String, String>, cwd: &st
     if let Ok(v) = std::env::var("MSIM_STUB_DIR") {
         c.env("MSIM_STUB_DIR", v);
     }
+    let debug_block = std::env::var("MSIM_DEBUG_BLOCK").is_ok();
+    if debug_block {
+        c.env("MSIM_DEBUG_BLOCK", "1");
+    }
     c.current_dir(if cwd.is_empty() { "/" } else { cwd });
     c.stdin(Stdio::piped()).stdout(Stdio::piped()).stderr(Stdio::piped());
     unsafe {
@@ -78,6 +82,11 @@ pub fn run_exec(cmd: &str, input: &str, env: &BTreeMap<String, String>, cwd: &st
         }
     };
     let _ = waiter.join();
+    if debug_block {
+        for l in String::from_utf8_lossy(&out.stderr).lines().filter(|l| l.contains("BLOCKED")) {
+            eprintln!("{l}");
+        }
+    }
     ExecOut {
         code: out.status.code(),
         signal: out.status.signal(),
